@@ -65,6 +65,12 @@ def run(ctx):
         ctx.extra.setdefault("EncodeImpl_prints_what_the_tree_holds", []).append(
             {"scope": tag, "MaxN": n, "MaxPath": pth, "edits": edits, "distinct_states": r.distinct})
         log("MCEncode %s: %d distinct states, %.1fs" % (tag, r.distinct, r.wall))
+    # the array editor (ArrayImpl: which trivia belongs to which element, value_op's decor for new elements, replace
+    # keeping decor, fmt, encode_array): every history of <= MaxN edits on nine start arrays prints an array of the
+    # grammar with the expected elements, and what is printed reads back as the same state
+    r = ctx.tlc("MCArray", "SPECIFICATION Spec\nCONSTANT MaxN = %d\nINVARIANT PrintsAnArray\nINVARIANT ReadBack\nINVARIANT StartsReadBack\nCHECK_DEADLOCK FALSE\n" % (3 if ctx.quick else 5),
+                tag="array", workers=4, timeout=3600)
+    ctx.extra["ArrayImpl_prints_arrays"] = {"MaxN": 3 if ctx.quick else 5, "distinct_states": r.distinct}
     # the start documents as text (from the committed module, via TLC's own parse in MCEdit)
     docs = []
     src = open(os.path.join(core.SPEC, "EditDocs.tla")).read()
@@ -106,8 +112,14 @@ def run(ctx):
             ctx.sample({"doc": e["doc"], "ops": [[s["op"], [core.uncps(x) if not x or x[0] >= 0 else x for x in s["path"]], core.uncps(s["key"]), s["i"]] for s in e["steps"]],
                         "printed_after_last_step": core.uncps(e["steps"][-1]["text"])})
     # model drift of the implementation-shaped printer (EncodeImpl): reported in the evidence, never a violation
+    adrift = [m for m in mism if m["what"] == "drift-array"]
+    nsteps_arr = sum(1 for e in core.iter_ndjson(evp) for s in e["steps"] if s["res"] == "ok" and s["op"].startswith("array_"))
+    ctx.extra["model_drift_ArrayImpl"] = {"array_steps": nsteps_arr, "text_mismatches": len(adrift),
+                                          "first": [{"doc": m["event"]["doc"] or m["event"]["id"], "step": m["detail"]["step"], "op": m["detail"]["op"],
+                                                     "model": core.uncps(m["detail"]["model"]), "impl": core.uncps(m["detail"]["impl"])} for m in adrift[:5]]}
+    log("model drift (ArrayImpl vs the text of edited arrays): %d mismatches on %d array steps" % (len(adrift), nsteps_arr))
     drift = [m for m in mism if m["what"] == "drift-encode"]
-    mism = [m for m in mism if m["what"] != "drift-encode"]
+    mism = [m for m in mism if m["what"] not in ("drift-encode", "drift-array")]
     compared = sum(1 for e in core.iter_ndjson(evp) for k, s in enumerate(e["steps"])
                    if s["res"] == "ok" and all(x["op"] in ("insert", "remove") for x in e["steps"][:k + 1]))
     ctx.extra["model_drift_EncodeImpl"] = {"histories": n, "insert_remove_steps_leading_a_history": compared, "statement_order_mismatches": len(drift),
